@@ -293,6 +293,8 @@ InsertionIndex(mm, g, root, mt, devs) ==
   IF fc < rp /\ "multi_output_insertion_point" \notin devs THEN fc - 1 ELSE rp
 \* _check_node_safe_to_remove
 SafeToRemove(mm, ns) == \A n \in SeqSet(ns) : Uses(mm, mm.nodes[n].out) \subseteq SeqSet(ns) /\ ~IsGOut(mm, mm.nodes[n].out)
+RECURSIVE JoinTags(_, _, _)
+JoinTags(base, tags, k) == IF k > Len(tags) THEN base ELSE JoinTags(base \o ", " \o tags[k], tags, k + 1)
 \* convenience.replace_nodes_and_values, then metadata_merger.copy_merged_metadata
 SpliceModel(mm, g, root, p, devs) ==
   LET olds == p.mt.outs
@@ -303,8 +305,12 @@ SpliceModel(mm, g, root, p, devs) ==
       m2 == Redirect(m1, olds, news)
       at == InsertionIndex(mm, g, root, p.mt, devs)
       m3 == NameNew([m2 EXCEPT !.graphs[g].order = InsertAfter(@, at, p.newn)], g, p.newn, 1)
-      rootsrc == mm.nodes[root].src
-      m4 == [m3 EXCEPT !.nodes = [n \in 1..Len(@) |-> IF n \in SeqSet(p.newn) THEN [@[n] EXCEPT !.src = rootsrc] ELSE @[n]]]
+      \* every new node is tagged with the rule name; then the metadata of the matched nodes is merged in: keys
+      \* the new node lacks are taken from the first matched node that has them (src), rule tags are joined
+      rootsrc == mm.nodes[p.mt.nodes[1]].src
+      tags == SelectSeq([k \in 1..Len(p.mt.nodes) |-> mm.nodes[p.mt.nodes[k]].rule], LAMBDA t : t # "")
+      tag == JoinTags(p.r, tags, 1)
+      m4 == [m3 EXCEPT !.nodes = [n \in 1..Len(@) |-> IF n \in SeqSet(p.newn) THEN [@[n] EXCEPT !.src = rootsrc, !.rule = tag] ELSE @[n]]]
   IN m4
 \* _copy_for_function: inputs are copies of the call node's inputs (a value passed twice maps to its LAST copy)
 ExtractFn(mm, g, p, devs) ==
@@ -792,6 +798,7 @@ S_negfn    == {RS(<<"negneg", "fn">>,   {"I_fn", "Neg"},          FALSE, 2, FALS
 S_pair     == {RS(<<"pair">>,           {"I_pair", "I_pairr", "I_pairc", "Relu"}, c, 2, TRUE, FALSE, FALSE, FALSE, FALSE) : c \in BOOLEAN}
 QuickSets == S_negneg \cup S_keep \cup S_relurelu \cup S_mul1 \cup S_subneg \cup S_addsum \cup S_chain \cup S_subnegneg
              \cup S_dbl \cup S_dblw \cup S_dblsum \cup S_fn \cup S_negfn \cup S_pair
+VacuitySets == S_subneg \cup S_dbl \cup S_pair
 NoDevs == {}
 RealDevs == AllDevs
 =============================================================================
